@@ -22,4 +22,10 @@ case "${1:-}" in
 esac
 PROP="$1"; TIER="${2:-${VERIF_TIER:-quick}}"
 build
-exec "$BIN" check -prop "$PROP" -tier "$TIER" -repo "$REPO" -verif "$HERE"
+"$BIN" check -prop "$PROP" -tier "$TIER" -repo "$REPO" -verif "$HERE"
+rc=$?
+if [ "$TIER" = "thorough" ] && [ $rc -eq 0 ]; then
+  # sensitivity run: evidence only, never changes the verdict
+  VERIF_REPO="$REPO" python3 "$HERE/tools/sensitivity.py" "$PROP" || true
+fi
+exit $rc
